@@ -52,6 +52,10 @@ def pref_vectors(rng, m):
     z[rng.randrange(m)] = Fr(0)
     out.append(z)
     out.append([Fr(rng.randint(0, 5)) for _ in range(m)])       # integers: may be handed over as an integer tensor
+    # the projection is positively homogeneous in u: a preference vector of magnitude 1e-12 .. 1e-8 is as legal as one of
+    # magnitude 1 (binary fractions: exact in every dtype used)
+    k = rng.choice([27, 33, 40])
+    out.append([Fr(rng.randint(1, 9), 2 ** k) for _ in range(m)])
     return out
 
 
@@ -59,6 +63,8 @@ def pref_tensor(rng, u, dtype):
     """the preference vector as the user may hand it over: in the matrix's dtype, or in another one (integer tensor,
     half / single / double precision) — all values used here are exactly representable in each"""
     kinds = [dtype, dtype, torch.float16, torch.float32, torch.float64]
+    if any(0 < v < Fr(1, 2 ** 14) for v in u):
+        kinds = [dtype, dtype, torch.float32, torch.float64]          # (below half precision's normal range)
     if all(v.denominator == 1 for v in u):
         kinds += [torch.int64, torch.int64]
     pd = rng.choice(kinds)
